@@ -326,7 +326,8 @@ def obligations(tier):
         if n != 7:
             continue
         ms_cases = [("btc", "p2sh-ms", 2, 2, (0, 1), (ALL,)), ("btc", "p2sh-ms", 2, 2, (1, 0), (SINGLE | ACP,)), ("btc", "p2wsh-ms", 2, 3, (2, 0), (ALL,)),
-                    ("btc", "ms", 1, 2, (1, 0), (NONE | ACP,)), ("bch", "p2sh-ms", 2, 3, (1, 2), (ALL,)), ("btc", "p2sh-p2wsh-ms", 2, 2, (1, 0), (ALL,))]
+                    ("btc", "ms", 1, 2, (1, 0), (NONE | ACP,)), ("bch", "p2sh-ms", 2, 3, (1, 2), (ALL,)), ("btc", "p2sh-p2wsh-ms", 2, 2, (1, 0), (ALL,)),
+                    ("btc", "p2sh-ms", 2, 3, (0, 0, 2), (ALL,)), ("btc", "p2wsh-ms", 2, 2, (1, 1, 0), (ALL,))]       # a key offered again before the others
         if T:
             ms_cases += [(coin, kind, 2, 3, o, (ALL, SINGLE | ACP)) for coin in ("btc", "btg") for kind in ("ms", "p2sh-ms", "p2wsh-ms")
                          for o in ((0, 1), (1, 0), (0, 2), (2, 0), (1, 2), (2, 1), (0, 0, 1), (2, 2, 1))]
